@@ -150,6 +150,7 @@ type Accepted struct {
 	Local  string // address the proxy dialled (listener side local address)
 	Remote string
 	Seq    int
+	Tag    string // free for the handler (e.g. who the connection belongs to)
 }
 
 // Backend is a harness listener standing in for a Minecraft server.
@@ -202,6 +203,13 @@ func (b *Backend) loop() {
 			b.Ch <- a
 		}
 	}
+}
+
+// SetHandler installs h: accepted connections are handed to it (own goroutine) instead of Ch.
+func (b *Backend) SetHandler(h func(*Accepted)) {
+	b.mu.Lock()
+	b.Handler = h
+	b.mu.Unlock()
 }
 
 // Count is the number of (non-sentinel) connections accepted so far.
